@@ -33,15 +33,30 @@ def generate(master, index, tier):
     n = rng.choice((1, 2, 3, 5, 8, 12))
     items = W.gen_wellformed_items(rng, n, p_filler=0.0, end_with_frame=0.8)
     p_bad = rng.choice((0.2, 0.5, 1.0))
+    crc_style = rng.choice(("random", "random", "const", "copy", "mixed"))
+    const = rng.choice((b"\x00\x00\x00", b"\xff\xff\xff", bytes(rng.getrandbits(8) for _ in range(3))))
+    prev_crc = None
     for it in items:
+        if it[0] == "frame":
+            this_crc = bytes.fromhex(it[1])[-3:]
         if it[0] == "frame" and rng.random() < p_bad:
             raw = bytes.fromhex(it[1])
-            while True:
-                bad = bytes(rng.getrandbits(8) for _ in range(3)) if rng.random() < 0.5 else wire.flip_bits(raw[-3:], [rng.randrange(24)])
+            for _try in range(20):
+                st = crc_style if crc_style != "mixed" else rng.choice(("random", "const", "copy"))
+                if st == "const":
+                    bad = const  # several frames of a run share the same wrong CRC bytes
+                elif st == "copy" and prev_crc is not None:
+                    bad = prev_crc  # the CRC bytes of the previous frame in the stream
+                else:
+                    bad = bytes(rng.getrandbits(8) for _ in range(3)) if rng.random() < 0.5 else wire.flip_bits(raw[-3:], [rng.randrange(24)])
                 if bad != raw[-3:]:
                     break
+            else:
+                bad = wire.flip_bits(raw[-3:], [0])
             it[0] = "crcbad"
             it.append(bad.hex())
+        if it[0] in ("frame", "crcbad"):
+            prev_crc = this_crc
     return {
         "prop": PROP,
         "kind": rng.choice(("bytesio", "buffered", "socket", "socket")),
